@@ -6,9 +6,12 @@
 package verifhook
 
 import (
+	"bytes"
 	"fmt"
+	"io"
 	"os/exec"
 	"sort"
+	"strings"
 	"sync"
 )
 
@@ -78,24 +81,78 @@ func (w *WaitGroup) Wait() {
 	S.Wait(w)
 }
 
+// Cmd stands for exec.Cmd: the fields and methods a caller may reasonably use are mirrored so
+// that a changed repository still builds against the shim.
 type Cmd struct {
-	Args []string
-	real *exec.Cmd
+	Path   string
+	Args   []string
+	Env    []string
+	Dir    string
+	Stdin  io.Reader
+	Stdout io.Writer
+	Stderr io.Writer
+	real   *exec.Cmd
 }
 
 func Command(name string, args ...string) *Cmd {
-	c := &Cmd{Args: append([]string{name}, args...)}
+	c := &Cmd{Path: name, Args: append([]string{name}, args...)}
 	if S == nil {
 		c.real = exec.Command(name, args...)
 	}
 	return c
 }
 
+func (c *Cmd) sync() {
+	c.real.Env, c.real.Dir, c.real.Stdin, c.real.Stdout, c.real.Stderr = c.Env, c.Dir, c.Stdin, c.Stdout, c.Stderr
+}
+
 func (c *Cmd) Run() error {
 	if S == nil {
+		c.sync()
 		return c.real.Run()
 	}
-	return S.Run(c)
+	err := S.Run(c)
+	if err != nil && c.Stderr != nil {
+		// what a failing tool would print
+		fmt.Fprintf(c.Stderr, "%s: cannot process %s\n", c.Args[0], c.Args[len(c.Args)-1])
+	}
+	return err
+}
+
+func (c *Cmd) Start() error { return c.Run() }
+
+func (c *Cmd) Wait() error { return nil }
+
+func (c *Cmd) String() string { return strings.Join(c.Args, " ") }
+
+func (c *Cmd) Output() ([]byte, error) {
+	if S == nil {
+		c.sync()
+		return c.real.Output()
+	}
+	return nil, c.Run()
+}
+
+func (c *Cmd) CombinedOutput() ([]byte, error) {
+	if S == nil {
+		c.sync()
+		return c.real.CombinedOutput()
+	}
+	var b bytes.Buffer
+	c.Stderr = &b
+	err := c.Run()
+	return b.Bytes(), err
+}
+
+// LookPath stands for exec.LookPath (decided by the scheduler's environment through a probe).
+func LookPath(file string) (string, error) {
+	if S == nil {
+		return exec.LookPath(file)
+	}
+	if err := S.Run(&Cmd{Path: "which", Args: []string{"which", file}}); err != nil {
+		return "", err
+	}
+	return "/usr/bin/" + file, nil
 }
 
 // Go replaces the go statement.
